@@ -249,7 +249,6 @@ func runValidatorReports() {
 					rep = append(rep, vrEntry(x, opts[x], member[x]))
 				}
 				res := vrRun(st, rep)
-				r.Add("evaluations", 1)
 				r.Add("validator_report_evaluations", 1)
 				if first {
 					canon, first = res, false
@@ -281,17 +280,30 @@ func runValidatorReports() {
 	}
 	for f, w := range worst {
 		c := w.c
-		c.Sig = fmt.Sprintf("C06|report=%s|axis=report-order|field=%s", vrClass(c.Base, c.Opts), f)
-		// re-execute: pure functions of their inputs, must reproduce
-		again := func() string {
+		// confirm by re-execution. The functions are pure in their inputs unless they iterate a map: if the SAME
+		// report in the SAME order does not always give the same result that is the finding (axis=repetition).
+		axis, seen := "report-order", 0
+		first, _, _ := vrOne(c.Base, c.Opts, nil)
+		for k := 0; k < 16; k++ {
 			canon, got, _ := vrOne(c.Base, c.Opts, c.Perm)
-			if vrDiff(canon, got) == f {
-				return c.Sig
+			if vrDiff(first, canon) != "" {
+				axis = "repetition"
 			}
-			return "not-reproduced"
+			if vrDiff(canon, got) != "" {
+				seen++
+			}
 		}
-		r.ViolationConfirmed(c.Sig, fmt.Sprintf("the same validator report (%s, base set %s) handed to consensus in two different orders gives different results (%s): ascending-address order -> %s ; order %v -> %s",
-			vrClass(c.Base, c.Opts), c.Base.Name, f, c.Expect, c.Perm, c.Got), c, again)
+		if axis == "report-order" && seen != 16 {
+			axis = "repetition"
+		}
+		c.Sig = fmt.Sprintf("C06|report=%s|axis=%s|field=%s", vrClass(c.Base, c.Opts), axis, f)
+		what := fmt.Sprintf("the same validator report (%s, base set %s) handed to consensus in two different orders gives different results (%s): ascending-address order -> %s ; order %v -> %s",
+			vrClass(c.Base, c.Opts), c.Base.Name, f, c.Expect, c.Perm, c.Got)
+		if axis == "repetition" {
+			what = fmt.Sprintf("the result of applying a validator report (%s, base set %s) is not a function of the report: re-executions disagree (%s; %d of 16 re-executions differ between two orders): %s vs %s",
+				vrClass(c.Base, c.Opts), c.Base.Name, f, seen, c.Expect, c.Got)
+		}
+		r.Violation(c.Sig, what, c)
 	}
 	for _, k := range []string{"add=", "repower=", "remove-by-zero=", "remove-by-absence=", "rejected"} {
 		r.Require(classes[k], "validator-report sub-check: no accepted report of class "+k)
@@ -299,11 +311,19 @@ func runValidatorReports() {
 }
 
 func replayValidatorReport(c vrCase) bool {
-	canon, got, present := vrOne(c.Base, c.Opts, c.Perm)
-	fmt.Printf("replaying validator report: base=%s options=%v present=%v order=%v\n  ascending order: %+v\n  this order:      %+v\n", c.Base.Name, c.Opts, present, c.Perm, canon, got)
-	if f := vrDiff(canon, got); f != "" {
-		fmt.Println("  differs in:", f)
-		return true
+	bad := false
+	first, _, present := vrOne(c.Base, c.Opts, nil)
+	fmt.Printf("replaying validator report: base=%s options=%v present=%v order=%v (16 re-executions)\n", c.Base.Name, c.Opts, present, c.Perm)
+	for k := 0; k < 16; k++ {
+		canon, got, _ := vrOne(c.Base, c.Opts, c.Perm)
+		if f := vrDiff(first, canon); f != "" {
+			fmt.Printf("  ascending order, execution %d differs from execution 0 in %s: %+v vs %+v\n", k, f, first, canon)
+			bad = true
+		}
+		if f := vrDiff(canon, got); f != "" {
+			fmt.Printf("  execution %d: order %v differs from ascending order in %s:\n    ascending: %+v\n    this:      %+v\n", k, c.Perm, f, canon, got)
+			bad = true
+		}
 	}
-	return false
+	return bad
 }
